@@ -366,10 +366,16 @@ type c18SeqOp struct {
 }
 
 type c18PoolSeqScn struct {
-	Limit  int        `json:"limit"`
-	MaxAge int64      `json:"maxage"`
-	Unit   int64      `json:"unit_ns"` // nanoseconds per time unit: 1e6 (ms) or 1 (maxAge of 1-3 ns: the smallest legal ages)
-	Ops    []c18SeqOp `json:"ops"`
+	Limit  int   `json:"limit"`
+	MaxAge int64 `json:"maxage"`
+	Unit   int64 `json:"unit_ns"` // nanoseconds per time unit: 1e6 (ms) or 1 (maxAge of 1-3 ns: the smallest legal ages)
+	// panicking callbacks (recovered by the caller of Get): the very first create, and/or the
+	// BoomDestroy-th destroy. On the unchanged tree a panicking create permanently costs one unit
+	// of capacity (created is incremented before create runs) - liveness, not asserted; the
+	// generator therefore plans with limit-1 after it.
+	BoomCreate  bool       `json:"boom_create,omitempty"`
+	BoomDestroy int        `json:"boom_destroy,omitempty"`
+	Ops         []c18SeqOp `json:"ops"`
 }
 
 // c18GenPoolSeq draws a single-goroutine script. Get is only issued when the pool
@@ -382,9 +388,21 @@ func c18GenPoolSeq(r interface{ Intn(int) int }) c18PoolSeqScn {
 	}
 	n := 10 + r.Intn(40)
 	held, idle := 0, 0 // upper bound bookkeeping: held+idle <= limit always allows Get iff idle>0 || held+idle<limit
+	limit := sc.Limit
+	if r.Intn(4) == 0 {
+		sc.BoomDestroy = 1 + r.Intn(3)
+	}
+	if r.Intn(4) == 0 {
+		sc.BoomCreate = true
+		if sc.Limit < 2 {
+			sc.Limit = 2
+		}
+		limit = sc.Limit - 1
+		sc.Ops = append(sc.Ops, c18SeqOp{Op: c18PGet}) // this Get's create panics: no resource, nothing held
+	}
 	for i := 0; i < n; i++ {
 		switch x := r.Intn(10); {
-		case x < 4 && (idle > 0 || held+idle < sc.Limit):
+		case x < 4 && (idle > 0 || held+idle < limit):
 			sc.Ops = append(sc.Ops, c18SeqOp{Op: c18PGet})
 			if idle > 0 {
 				idle-- // reused or destroyed+recreated: either way one idle slot turns into a held one at most
@@ -411,9 +429,14 @@ func c18RunPoolSeq(m *vk.M, idx int, sc c18PoolSeqScn) bool {
 		nextID    int
 		destroyed []int
 	)
+	ncreateCalls, ndestroyCalls, npanics := 0, 0, 0
 	p := NewPool(sc.Limit, func() any {
 		mu.Lock()
 		defer mu.Unlock()
+		ncreateCalls++
+		if sc.BoomCreate && ncreateCalls == 1 {
+			panic(c18Panic{-3})
+		}
 		nextID++
 		return &c18PRes{id: nextID}
 	}, func(x any) {
@@ -421,6 +444,10 @@ func c18RunPoolSeq(m *vk.M, idx int, sc c18PoolSeqScn) bool {
 		defer mu.Unlock()
 		if r, ok := x.(*c18PRes); ok {
 			destroyed = append(destroyed, r.id)
+		}
+		ndestroyCalls++
+		if ndestroyCalls == sc.BoomDestroy {
+			panic(c18Panic{-4})
 		}
 	}, WithMaxAge(time.Duration(sc.MaxAge*sc.Unit)))
 
@@ -436,6 +463,9 @@ func c18RunPoolSeq(m *vk.M, idx int, sc c18PoolSeqScn) bool {
 			timex.VerifAdvance(time.Duration(op.X * sc.Unit))
 			now += op.X
 		case c18PPut:
+			if len(held) == 0 { // the Get that would have provided it panicked
+				continue
+			}
 			r := held[int(op.X)%len(held)]
 			held = append(held[:int(op.X)%len(held)], held[int(op.X)%len(held)+1:]...)
 			p.Put(r)
@@ -449,7 +479,8 @@ func c18RunPoolSeq(m *vk.M, idx int, sc c18PoolSeqScn) bool {
 			}
 			nexpiredSeen += expired
 			var v any
-			if !vk.Within(c18Watchdog, func() { v = p.Get() }) {
+			panicked := false
+			if !vk.Within(c18Watchdog, func() { _, panicked = vk.Recover(func() { v = p.Get() }) }) {
 				m.Inconclusive("case %d (poolseq) step %d: Get did not return within %v although the pool had an idle resource or room to create (live=%d limit=%d idle=%d of which beyond maxAge=%d)",
 					idx, step, c18Watchdog, len(idle)+len(held), sc.Limit, len(idle), expired)
 				return false
@@ -468,6 +499,10 @@ func c18RunPoolSeq(m *vk.M, idx int, sc c18PoolSeqScn) bool {
 				}
 				delete(idle, d)
 				dead[d] = true
+			}
+			if panicked { // a callback panicked inside this Get: nobody received a resource
+				npanics++
+				continue
 			}
 			if r == nil {
 				m.Violate("C18:pool:foreign-resource", desc, "step %d: Get returned a value that create never produced", step)
@@ -506,6 +541,7 @@ func c18RunPoolSeq(m *vk.M, idx int, sc c18PoolSeqScn) bool {
 	m.Count("poolseq_gets", int64(nget))
 	m.Count("poolseq_reuses", int64(nreuse))
 	m.Count("poolseq_destroys", int64(ndestroy))
+	m.Count("poolseq_gets_with_panicking_callback", int64(npanics))
 	m.Count("poolseq_idle_beyond_maxage_at_get", int64(nexpiredSeen))
 	m.Case(fmt.Sprintf("poolseq%d/%d/%d/%d/%s", sc.Limit, nget, nreuse, ndestroy, vk.Digest(vk.JSON(sc.Ops))), ndestroy > 0)
 	if ndestroy > 0 && m.WantSample() && idx%23 == 1 {
